@@ -407,7 +407,9 @@ def evaluate(o, config, facts_by_config, specimen_by_config):
 def run_property(prop, tier, facts_by_config, specimen_by_config, seed=0):
     """Evaluate all obligations serving `prop`. Returns (exit_code, lines, evidence)."""
     t0 = time.time()
-    known = [k for k in load_known() if k.get("property") == prop and k.get("status") == "known"]
+    # a known finding is identified by its exact violation key; the obligation that reports it may serve several
+    # properties, so the entry applies under each of them (it is printed with the property being checked)
+    known = [k for k in load_known() if k.get("status") == "known"]
     known_keys = {k["key"]: k for k in known}
     results = []
     for o in REGISTRY:
